@@ -375,7 +375,7 @@ new_event_notification(struct qb_ipcs_connection * c)
 		res = resend_event_notifications(c);
 	} else {
 		res = qb_ipc_us_send(&c->setup, &c->outstanding_notifiers, 1);
-		if (res == -EAGAIN) {
+		if (res == -EAGAIN || res == -ENOBUFS) {
 			/*
 			 * notify the client later, when we can.
 			 */
@@ -446,7 +446,7 @@ qb_ipcs_event_sendv(struct qb_ipcs_connection * c,
 	if (res > 0) {
 		c->stats.events++;
 		resn = new_event_notification(c);
-		if (resn < 0 && resn != -EAGAIN) {
+		if (resn < 0 && resn != -EAGAIN && resn != -ENOBUFS) {
 			errno = -resn;
 			qb_util_perror(LOG_DEBUG,
 				       "new_event_notification (%s)",
